@@ -358,6 +358,9 @@ def enum_src(e: Enum_, style: str, indent: str) -> str:
     if len(e.members) == 3 and sum(map(ord, e.name)) % 2 == 0:
         # one statement with a tuple target (no random draw: the members and their order are the same)
         out += f"{indent}    {', '.join(e.members)} = 1, 2, 3\n"
+    elif len(e.members) == 2 and sum(map(ord, e.name)) % 2 == 0:
+        # one chained statement with two targets (the second member is an alias of the first for Python; the tool lists both)
+        out += f"{indent}    {e.members[0]} = {e.members[1]} = 1\n"
     else:
         for i, m in enumerate(e.members):
             out += f"{indent}    {m} = {i + 1}\n"
